@@ -224,7 +224,7 @@ def run(ctx):
     for order in (2, 4, 6, 8, 10):
         for scale in (1e-16, 2.0 ** -56):     # |x| <= 9 must stay inside the int64 grid
             for N in (3, 4):
-                for n in (50, 400):
+                for n in (50, 400) + ((2000,) if ctx.tier == "thorough" else ()):
                     for which in (0, 1, 2, 3):
                         for first in (1, -1):
                             jt.append((order, scale, N, n, which, first, 3))     # 3: compensated gravity
@@ -263,7 +263,7 @@ def run(ctx):
     cov = {
         "whfast512_cases": n_w512,
         "evaluations": len(jt) + len(st), "distinct_nontrivial": len(jt) + len(st),
-        "rule": "JANUS: order{2,4,6,8,10} x (scale_pos,scale_vel) in {1e-16,1e-12,1e-8 equal; (4e-16,1e-16); (1e-12,2e-12)} x N{2,3,4} x n{1,2,5,50(,500)} x 4 grid-representable initial conditions x first direction x {plain, recalculation flag set by the user before the run, run started from a state reached after modifying a particle and requesting recalculation once}; order x scale{1e-16,2^-56} x N{3,4} x n{50,400} with compensated gravity, and at scale 1e-16 also with test particles (compensated or basic with the last body a test particle; compensated with one active body and testparticle_type 1); "
+        "rule": "JANUS: order{2,4,6,8,10} x (scale_pos,scale_vel) in {1e-16,1e-12,1e-8 equal; (4e-16,1e-16); (1e-12,2e-12)} x N{2,3,4} x n{1,2,5,50(,500)} x 4 grid-representable initial conditions x first direction x {plain, recalculation flag set by the user before the run, run started from a state reached after modifying a particle and requesting recalculation once}; order x scale{1e-16,2^-56} x N{3,4} x n{50,400(,2000)} with compensated gravity, and at scale 1e-16 also with test particles (compensated or basic with the last body a test particle; compensated with one active body and testparticle_type 1); "
                 "symmetric schemes: WHFast x 4 coordinate systems x safe/unsafe, 10 uncorrected SABA types, 36 unprocessed EOS splittings (phi0 x phi1 over lf, lf4, lf6, lf8, lf4_2, lf8_6_4), LEAPFROG on {S3, S4G, hyperbolic flyby} and SEI (free, self-gravitating, shearing box) x n x direction",
         "samples": [list(jt[0]), list(st[0][:1]) + [st[0][1]] + list(st[0][2:])], "observed_max_round_trip_error_in_units_of_u_n_scale": worst, "allowed": ROUND_K, "exhaustive": True,
     }
